@@ -19,16 +19,20 @@ Pool == [Zeta |-> <<"zz", "aa", "mm">>, Alpha |-> <<"b1", "a2">>, Mid |-> <<"onl
          Beta |-> <<"q", "p", "r", "o", "s">>, Nil |-> <<>>,
          TB |-> <<"tb1">>, Ta |-> <<"ta2", "ta1">>,
          \* methods with attributes: vo_* is #[vtbl_only] (a vtable slot like any other), sk_* is #[skip_func] (not exported)
-         Attr |-> <<"n1", "vo_a", "n2", "sk_b", "n3", "vo_c", "n4">>]
+         Attr |-> <<"n1", "vo_a", "n2", "sk_b", "n3", "vo_c", "n4">>,
+         \* associated types (ty_*) declared between the methods: they are not slots, and they do not move the slots
+         Ty |-> <<"open", "close", "ty_id", "ident", "reset">>,
+         Ty2 |-> <<"ty_w", "b1x", "ty_x", "b2x", "b3x", "b4x", "ty_y", "b5x", "ty_z">>]
 Names == DOMAIN Pool
 
 (* name order = the order of Rust's string comparison on the identifiers (byte order: every upper-case  *)
 (* letter sorts before every lower-case one, so "TB" < "Ta"); existing binaries   *)
 (* rely on exactly this order, a case-insensitive or locale collation would move vtable pointers        *)
-Rank == [Alpha |-> 1, Attr |-> 2, Beta |-> 3, Gamma |-> 4, Mid |-> 5, Nil |-> 6, Omega |-> 7, TB |-> 8, Ta |-> 9, Zeta |-> 10]
+Rank == [Alpha |-> 1, Attr |-> 2, Beta |-> 3, Gamma |-> 4, Mid |-> 5, Nil |-> 6, Omega |-> 7, TB |-> 8, Ta |-> 9, Ty |-> 10, Ty2 |-> 11, Zeta |-> 12]
 SortByRank(S) == SetToSortSeq(S, LAMBDA a, b : Rank[a] < Rank[b])
 
-Skipped(m) == m \in {"sk_b"}
+IsType(m) == m \in {"ty_id", "ty_w", "ty_x", "ty_y", "ty_z"}
+Skipped(m) == m \in {"sk_b"} \/ IsType(m)
 (* one function pointer per EXPORTED method, in declaration order - whatever attributes the methods carry *)
 VtblLayout(t) == SelectSeq(Pool[t], LAMBDA m : ~Skipped(m))
 
